@@ -370,6 +370,8 @@ func runE3(p *propInfo, tier string, seed int, scratch, replay string, shardOver
 		return runC11(tier, scratch, replay, n)
 	case "C05":
 		return runC05E3(tier, scratch, replay, n)
+	case "C07":
+		return runC07E3(tier, scratch, replay, n)
 	}
 	m := newMerged()
 	m.harnessErrs = append(m.harnessErrs, "no E3 driver for "+p.id)
